@@ -38,7 +38,14 @@ struct Value {
     std::string str;
     static int bracket_balance(const std::string& s) {
         int depth = 0;
-        for (char ch : s) depth += (ch == '[') - (ch == ']');
+        for (size_t i = 0; i < s.length(); ++i) {
+            if (s[i] == '#') {
+                // brackets inside a comment do not count
+                while (i < s.length() && s[i] != '\n' && s[i] != '\r') ++i;
+                continue;
+            }
+            depth += (s[i] == '[') - (s[i] == ']');
+        }
         return depth;
     }
     static std::vector<Value> parse_args(const std::vector<const char*> args) {
@@ -84,6 +91,11 @@ struct Value {
                 size_t depth = 1;
                 while ((++i) <= args_len && depth > 0) {
                     ch = args_string[i];
+                    if (ch == '#') {
+                        // a comment inside the group runs to the end of the line: brackets in it do not count
+                        while (i < args_len && args_string[i] != '\n' && args_string[i] != '\r') i++;
+                        continue;
+                    }
                     depth += (ch == '[') - (ch == ']');
                 }
                 if (depth > 0) {
